@@ -51,7 +51,7 @@ func init() {
 				return 200_000
 			}, Run: c19Geometry,
 				Rule: "rendered oracle: offsets at the characteristic points of the requested geometry, stops/spread/shape of the rendered paint; direct and via bytes",
-				Min:  map[string]int64{"linear": 5000, "circular": 5000, "elliptical": 5000, "general": 5000, "via_bytes": 10000, "direct": 10000, "rectangle_set_after_reset": 10000}},
+				Min:  map[string]int64{"linear": 5000, "circular": 5000, "elliptical": 5000, "general": 5000, "filled_through_a_selector_adjustment": 5000, "via_bytes": 10000, "direct": 10000, "rectangle_set_after_reset": 10000}},
 		},
 	})
 }
@@ -427,20 +427,30 @@ func c19Geometry(c *run.Ctx, idx uint64) {
 	vb := ivg.ViewBox{MinX: float32(-mag * r.Uniform(0.5, 1.5)), MinY: float32(-mag * r.Uniform(0.5, 1.5)), MaxX: float32(mag * r.Uniform(0.5, 1.5)), MaxY: float32(mag * r.Uniform(0.5, 1.5))}
 	rect := image.Rect(0, 0, r.Range(1, 300), r.Range(1, 300)).Add(image.Pt(r.Range(-30, 50), r.Range(-30, 50)))
 	c.Count([]string{"linear", "circular", "elliptical", "general"}[q.kind], 1)
+	// the path is filled from the register the helper wrote, named either by
+	// CSEL itself or by a moved CSEL and a selector adjustment of 1..6
+	fillAdj := uint8(r.Pick(0, 0, 0, 1, 2, 3, 4, 5, 6))
+	if fillAdj != 0 {
+		c.Count("filled_through_a_selector_adjustment", 1)
+	}
 	prog := func(dst ivg.Destination) error {
 		d := &rec.Dest{Tee: dst}
 		c19Prior(c, r.Clone(), d)
 		// leave CSEL outside the helper's stop range (the six registers
 		// below the base are free even with 58 stops)
 		base, _ := c19Base()
-		d.SetCSel(uint8((base - 1 - r.Clone().Intn(6)) & 63))
+		sel := uint8((base - 1 - r.Clone().Intn(6)) & 63)
+		d.SetCSel(sel)
 		g := generate.Generator{}
 		g.SetDestination(d)
 		if idx%2 == 1 {
 			g.SetTransform(generate.Scale(2, -3), generate.Translate(5, 6)) // for path data only
 		}
 		err := q.do(&g)
-		dst.StartPath(0, vb.MinX, vb.MinY)
+		if fillAdj != 0 {
+			dst.SetCSel((sel + fillAdj) & 63)
+		}
+		dst.StartPath(fillAdj, vb.MinX, vb.MinY)
 		dst.AbsLineTo(vb.MaxX, vb.MinY)
 		dst.AbsLineTo(vb.MaxX, vb.MaxY)
 		dst.ClosePathEndPath()
